@@ -35,7 +35,7 @@ SchemaA == [dynamic |-> TRUE] @@ SchemaF(<<
     <<"ct", CtS>>,
     <<"citems", With(ListF(ItemC), [default |-> ListV(<<D1(<<"w">>, IntV(1)), D1(<<"w">>, IntV(1))>>)])>> >>)
 
-MCKeyNames == {"va", "vm", "mode", "is_dev_mode", "is_prod_mode", "ip", "net", "hostn", "url", "ratio", "flag", "blob", "port", "lvl", "lst", "dct", "nest", "addr", "cnt", "raw", "name", "port", "tags", "opts", "feat", "enabled", "key", "core", "srv", "host", "ct", "citems", "u", "m", "w", "l2", "ditems", "a", "s", "l", "d", "sub", "x", "y", "deep", "z", "items", "p", "q", "zz"}
+MCKeyNames == {"va", "vm", "mode", "is_dev_mode", "is_prod_mode", "ip", "net", "hostn", "url", "ratio", "flag", "blob", "port", "lvl", "lst", "dct", "nest", "addr", "cnt", "raw", "name", "port", "tags", "opts", "feat", "enabled", "key", "core", "srv", "host", "ct", "citems", "u", "m", "w", "l2", "ditems", "a", "s", "l", "d", "sub", "x", "y", "deep", "z", "items", "p", "q", "zz", "path", "newp"}
 MCKeyChars == [k \in MCKeyNames |->
     CASE k = "a" -> <<"a">> [] k = "s" -> <<"s">> [] k = "l" -> <<"l">> [] k = "d" -> <<"d">>
       [] k = "sub" -> <<"s","u","b">> [] k = "x" -> <<"x">> [] k = "y" -> <<"y">>
@@ -49,7 +49,8 @@ MCKeyChars == [k \in MCKeyNames |->
       [] k = "ct" -> <<"c","t">> [] k = "citems" -> <<"c","i","t","e","m","s">> [] k = "u" -> <<"u">>
       [] k = "m" -> <<"m">> [] k = "w" -> <<"w">>
       [] k = "l2" -> <<"l","2">> [] k = "ditems" -> <<"d","i","t","e","m","s">>
-      [] k = "p" -> <<"p">> [] k = "q" -> <<"q">> [] k = "zz" -> <<"z","z">>]
+      [] k = "p" -> <<"p">> [] k = "q" -> <<"q">> [] k = "zz" -> <<"z","z">>
+      [] k = "path" -> <<"p","a","t","h">> [] k = "newp" -> <<"n","e","w","p">>]
 \* (one variable, set to a valid value that is falsy in Python; harness/props/cfgmachine.py sets it)
 MCEnviron == [n \in {<<"F", "V">>} |-> <<"0">>]
 
@@ -310,10 +311,14 @@ SchemaB == SchemaF(<<
     <<"lvl", With(StringF, [tcase |-> "lower", stripm |-> "ws", choices |-> << <<"i", "n", "f", "o">>, <<"w", "a", "r", "n">> >>, default |-> s(<<"i", "n", "f", "o">>)])>>,
     <<"lst", With(ListF(With(HostnameF, [allow_ipv4 |-> TRUE])), [default |-> ListV(<<>>)])>>,
     <<"dct", With(DictF(With(StringF, [tcase |-> "lower"]), With(FloatF, [hasmin |-> TRUE, min |-> 0])), [default |-> DictV(<<>>)])>>,
+    \* file names resolved below a start directory that is NOT the working directory ($ is; CincoFields.FsKind):
+    \* what must (not) exist is the resolved name, and that is what is stored
+    <<"path", With(FilenameF, [exists |-> "true", startdir |-> <<"$", "/", "d">>])>>,
+    <<"newp", With(FilenameF, [exists |-> "false", startdir |-> <<"$", "/", "d">>])>>,
     <<"nest", NestB>> >>)
 MCSetCandsB ==
     [pk \in {<< <<>>, "ip">>, << <<>>, "net">>, << <<>>, "hostn">>, << <<>>, "url">>, << <<>>, "ratio">>, << <<>>, "flag">>, << <<>>, "blob">>,
-             << <<>>, "port">>, << <<>>, "lvl">>, << <<>>, "lst">>, << <<>>, "dct">>, << <<>>, "nest">>, << <<"nest">>, "addr">>} |->
+             << <<>>, "port">>, << <<>>, "lvl">>, << <<>>, "lst">>, << <<>>, "dct">>, << <<>>, "nest">>, << <<"nest">>, "addr">>, << <<>>, "path">>, << <<>>, "newp">>} |->
         CASE pk[2] = "ip"    -> {s(<<"1", "9", "2", ".", "1", "6", "8", ".", "1", ".", "1">>), s(<<" ", "1", "0", ".", "1", ".", "2", ".", "3", " ">>), s(<<"2", "5", "6", ".", "1", ".", "1", ".", "1">>), s(<<"1", ".", "2", ".", "3">>), IntV(1)}
           [] pk[2] = "net"   -> {s(<<"1", "9", "2", ".", "1", "6", "8", ".", "0", ".", "0", "/", "1", "6">>), s(<<"1", "0", ".", "0", ".", "0", ".", "0", "/", "2", "5">>), s(<<"1", "0", ".", "0", ".", "0", ".", "1", "/", "2", "4">>), s(<<"1", "0", ".", "0", ".", "0", ".", "0", "/", "7">>), s(<<"1", "7", "2", ".", "1", "6", ".", "0", ".", "0", "/", "0", "2", "4">>)}
           [] pk[2] = "hostn" -> {s(<<"w", "e", "b", "-", "1", ".", "e", "x", "a", "m", "p", "l", "e">>), s(<<"1", "0", ".", "0", ".", "0", ".", "1">>), s(<<"b", "a", "d", " ", "h", "o", "s", "t", "!">>), s(<<"a">>)}
@@ -326,9 +331,11 @@ MCSetCandsB ==
           [] pk[2] = "lst"   -> {ListV(<<s(<<"w", "e", "b", "-", "1", ".", "e", "x", "a", "m", "p", "l", "e">>), s(<<"1", "9", "2", ".", "1", "6", "8", ".", "1", ".", "1">>)>>), ListV(<<s(<<"b", "a", "d", " ", "h", "o", "s", "t", "!">>)>>)}
           [] pk[2] = "dct"   -> {D1(<<"K">>, IntV(1)), D1(<<"k">>, FloatH(-1))}
           [] pk[2] = "nest"  -> {D1(<<"a", "d", "d", "r">>, s(<<"1", "9", "2", ".", "1", "6", "8", ".", "1", ".", "1">>)), D1(<<"a", "d", "d", "r">>, s(<<"2", "5", "6", ".", "1", ".", "1", ".", "1">>))}
-          [] pk[2] = "addr"  -> {s(<<"1", "9", "2", ".", "1", "6", "8", ".", "1", ".", "1">>), s(<<"1", ".", "2", ".", "3">>)}]
+          [] pk[2] = "addr"  -> {s(<<"1", "9", "2", ".", "1", "6", "8", ".", "1", ".", "1">>), s(<<"1", ".", "2", ".", "3">>)}
+          [] pk[2] \in {"path", "newp"} -> {s(<<"g">>), s(<<"f">>), s(<<"$", "/", "f">>), s(<<"m">>), IntV(1)}]
 MCTreesB == {DictV(<<>>), D1(<<"i", "p">>, s(<<"1", "9", "2", ".", "1", "6", "8", ".", "1", ".", "1">>)), D2(<<"n", "e", "t">>, s(<<"1", "9", "2", ".", "1", "6", "8", ".", "0", ".", "0", "/", "1", "6">>), <<"i", "p">>, s(<<"2", "5", "6", ".", "1", ".", "1", ".", "1">>)),
-             D1(<<"b", "l", "o", "b">>, s(<<"0", "0", "f", "f">>)), D1(<<"b", "l", "o", "b">>, s(<<"z", "z">>)), D1(<<"u", "r", "l">>, NoneV), D1(<<"d", "c", "t">>, D1(<<"A">>, IntV(2)))}
+             D1(<<"b", "l", "o", "b">>, s(<<"0", "0", "f", "f">>)), D1(<<"b", "l", "o", "b">>, s(<<"z", "z">>)), D1(<<"u", "r", "l">>, NoneV), D1(<<"d", "c", "t">>, D1(<<"A">>, IntV(2))),
+             D2(<<"p", "a", "t", "h">>, s(<<"g">>), <<"n", "e", "w", "p">>, s(<<"g">>)), D2(<<"p", "a", "t", "h">>, s(<<"f">>), <<"n", "e", "w", "p">>, s(<<"f">>))}
 MCKwargsB == {<<>>, << <<"port", IntV(22)>> >>, << <<"port", IntV(0)>> >>, << <<"url", s(<<"n", "o", "-", "s", "c", "h", "e", "m", "e">>)>> >>}
 MCListOpsB == [pk \in {<< <<>>, "lst">>} |-> {[m |-> "append", v |-> s(<<"w", "e", "b", "-", "1", ".", "e", "x", "a", "m", "p", "l", "e">>)], [m |-> "append", v |-> s(<<"b", "a", "d", " ", "h", "o", "s", "t", "!">>)], [m |-> "insert", i |-> 0, v |-> s(<<"1", "9", "2", ".", "1", "6", "8", ".", "1", ".", "1">>)], [m |-> "pop"]}]
 MCDictOpsB == [pk \in {<< <<>>, "dct">>} |-> {[m |-> "setitem", k |-> s(<<" ", "W", "A", "R", "N", " ">>), v |-> s(<<"0", ".", "5">>)], [m |-> "setitem", k |-> s(<<" ", "W", "A", "R", "N", " ">>), v |-> FloatH(-3)], [m |-> "clear"]}]
